@@ -459,3 +459,8 @@ package types
 //@     invariant forall i int, j int :: (0 <= i && i < j && j < len(parents)) ==> parents[i] != parents[j]
 //@     invariant forall j int :: (0 <= j && j < len(parents)) ==> $done[mkstruct(EntityUID, parents[j].Type, parents[j].ID)]
 //@   assert before "return json.Marshal(m)" strictly_sorted: strLess(string(parents[$si].Type), string(parents[$sj].Type)) || (parents[$si].Type == parents[$sj].Type && strLess(string(parents[$si].ID), string(parents[$sj].ID)))
+
+// Values yields the value stored under each key.
+//@ func (Record) Values
+//@   itercanonical
+//@ spec func iter_Record_Values(r Record, v Value) bool = exists k String :: has(r.m, k) && v == r.m[k]
